@@ -100,13 +100,13 @@ func (fc *fctx) externalCall(callee *ssa.Function, args []*Val, cc *ssa.CallComm
 	key := callee.String()
 	switch key {
 	case "reflect.ValueOf":
-		tr.u.decl("reflect_kind_of", "(declare-fun reflect_kind_of (Iface) Int)")
+		tr.u.decl("specfn:reflect_kind_of", "(declare-fun reflect_kind_of (Iface) Int)")
 		v := fc.freshVal("rv", callee.Signature.Results().At(0).Type())
 		tr.reflectOf[v.E()] = args[0]
 		tr.trusted["reflect.ValueOf/Kind: the kind is an uninterpreted function of the interface value"] = true
 		return []*Val{v}
 	case "(reflect.Value).Kind":
-		tr.u.decl("reflect_kind_of", "(declare-fun reflect_kind_of (Iface) Int)")
+		tr.u.decl("specfn:reflect_kind_of", "(declare-fun reflect_kind_of (Iface) Int)")
 		if src, ok := tr.reflectOf[args[0].E()]; ok {
 			return []*Val{mkVal("(reflect_kind_of "+src.E()+")", "Int", callee.Signature.Results().At(0).Type())}
 		}
